@@ -549,3 +549,37 @@ func VerifC10_OmittedTargetAfterUse() {
 	})
 	vreach("end")
 }
+
+// ---- C10: "passing no components ... always panics": every entry point that takes component
+// lists, called with empty lists (with and without relation arguments), is rejected without effect
+func VerifC10_NoComponents() {
+	vMode = 0
+	W := vShapeFor(1)
+	e := W.e[2].h // a child: (R1 -> p0, A)
+	p1 := W.e[1].h
+	idR1 := W.id[cR1]
+	call := vPick("call", 9)
+	W.expectReject("no-components", func() {
+		switch call {
+		case 0:
+			W.u.Add(e)
+		case 1:
+			W.u.AddRel(e, nil)
+		case 2:
+			W.u.AddRel(e, nil, RelID(idR1, p1))
+		case 3:
+			W.u.Remove(e)
+		case 4:
+			W.u.Exchange(e, nil, nil)
+		case 5:
+			W.u.Exchange(e, nil, nil, RelID(idR1, p1))
+		case 6:
+			W.u.Exchange(e, []ID{}, []ID{}, RelID(idR1, p1))
+		case 7:
+			W.u.SetRelations(e)
+		case 8:
+			NewMap1[vChild](W.w).SetRelations(e)
+		}
+	})
+	vreach("end")
+}
